@@ -12,7 +12,7 @@ Record text_transparent (iph : N -> bool) (txt : string -> string) : Prop := {
   tt_href : forall p, txt (Href.href_marshal p) = Href.href_marshal p;
   tt_quote : forall t, txt (Quote.quote iph t) = Quote.quote iph t;
   tt_time : forall s, txt (Civil.time_marshal (s, 0%Z)) = Civil.time_marshal (s, 0%Z);
-  tt_digits : forall n, txt (dec n) = dec n
+  tt_digits : forall z, txt (dec_z z) = dec_z z
 }.
 
 (** ** Domains: C05's are C16's *)
@@ -120,7 +120,7 @@ Section Laws.
            local_segs (i_path e) = Ok q /\ geto t q = Some n /\ scope recursive segs q /\
            match n with
            | Dir _ => i_dir e = true
-           | File c m => i_dir e = false /\ i_size e = strlen c /\ i_etag e = etag_of m (strlen c) /\
+           | File c m => i_dir e = false /\ i_size e = Z.of_N (strlen c) /\ i_etag e = etag_of m (strlen c) /\
                          i_mod e = to_second (instant_of_ns m)
            end) /\
       (forall q n, geto t q = Some n -> scope recursive segs q -> In (external_path q) (map i_path l)).
